@@ -289,6 +289,45 @@ def run_case(case, stats):
             if bad:
                 raise Violation("rows-differ", f"{bad}; result {res}; {ctx}", opts=label, final=final[0], moved=moved)
             stats.c["compared"] += 1
+        # the same request on a *twin* tree: same engines, same leaf names and columns, other rows.  Relations compare
+        # equal when they differ only in payloads, so anything memoised by equality would hand back the first tree.
+        if not preprocess:
+            from vf.core.prog import twin_leaves
+
+            leaves2 = twin_leaves(leaves)
+            truth2 = ev_multi(full, leaves2)
+            tw = env.twin(leaves2)
+            try:
+                rels2 = {}
+                try:
+                    build_all(base, tw, rels2)
+                    root2 = rels2[id(base)]
+                    fixed2 = tw.leafrels[final[2][1]] if final[0] == "join" else None
+                    o = dict(backtrack=True, transfer=False)
+                    if final[0] != "join":
+                        o.update(preferred_engine=env.engines[S], require_preferred_engine=False)
+                    res2 = issue(final, root2, fixed2, tw, o)
+                    got2 = execute_processed(tw, make_processor(tw).process(res2))
+                except (ColumnError, EngineError, DatabaseError, BuildError):
+                    got2 = None
+                except Exception as e:
+                    if is_order_loss(e):
+                        got2 = None
+                    else:
+                        raise Violation("call-raised", f"twin tree: {type(e).__name__}: {str(e)[:200]}; {ctx0}", sig=exc_sig(e), opts="twin backtrack=True", final=final[0])
+                if got2 is not None:
+                    bad = compare(truth2, got2)
+                    if bad:
+                        raise Violation(
+                            "rows-differ",
+                            f"twin tree (same names, other rows, same engines): {bad}; {ctx0}",
+                            opts="twin backtrack=True",
+                            final=final[0],
+                            twin=True,
+                        )
+                    stats.c["twin:compared"] += 1
+            finally:
+                tw.close_tables()
         if downstream_ops >= 1:
             cls = f"S=E{S}/{final[0]}/" + ("moved" if moved_any else "not-moved")
             stats.mark_nontrivial(codec.digest(case), lambda: describe(case), cls=cls)
